@@ -422,6 +422,9 @@ func (w *World) Run(body func()) {
 	}
 	root.state = stDone
 	W = nil
+	// the decision buffer is shared between worlds: keep a private copy of what
+	// this world recorded
+	w.rec = append([]Decision(nil), w.rec[:w.nrec]...)
 }
 
 //go:norace
